@@ -93,6 +93,9 @@ fn gen_req(conn: usize, i: usize, s: usize, with_cache: bool) -> Req {
             },
         },
         extra_headers: vec![],
+        raw_head: None,
+        raw_body: None,
+        meta: None,
     }
 }
 
